@@ -97,6 +97,7 @@ type Exec struct {
 	fs          *fsState
 	streams     map[*Value]*streamState
 	uuids       []*Term
+	pools       map[*Value][]Value
 	nuuid       int
 	onceDone    map[*Value]bool
 
